@@ -1,7 +1,8 @@
 """C02 - no capacity is ever lost, no waiter stranded, get() never panics / deadlocks."""
+import re
 from .mcommon import *
 from .roles import PERMIT_ADT, classify_write, adt_of
-from .facts import strip_generics
+from .facts import strip_generics, Operand
 from .analysis import sources
 from . import rules_C01
 from . import preds
@@ -181,7 +182,7 @@ def run(ctx):
     n_sites = 0
     for p in sorted(region):
         b = prog.bodies[p]
-        if not (p.startswith('deadpool::managed') or p.startswith('<deadpool::managed')):
+        if not (p.startswith('deadpool::managed') or p.startswith('<deadpool::managed') or (' as deadpool::managed::' in p.split('>::')[0] and str(prog.bodies[p].file).startswith('src/'))):
             continue
         ctx.saw(b)
         ban = prog.an(b)
@@ -197,6 +198,8 @@ def run(ctx):
                     ok = _assert_on_field(ban, b, blk, {(r.SLOTS, r.SIZE), ('deadpool::managed::metrics::Metrics', 'recycle_count')})
                     ctx.ob('R02.4', 'overflow check only on paired counters', ok, ctx.where(b, t.line),
                            'arithmetic overflow check on an unexpected value' if not ok else '', construct='panic:overflow:' + b.name)
+                elif msg.startswith('bounds') and _bounds_assert_safe(ban, b, blk, r.crate):
+                    ctx.count('bounds_checks_discharged')          # `table[kind as usize]` with a table at least as long as the enum has variants
                 else:
                     ctx.ob('R02.4', 'no other assert', False, ctx.where(b, t.line), 'assert(%s) reachable from get()/drop/take' % msg,
                            construct='panic:%s:%s' % (msg, b.name))
@@ -212,7 +215,7 @@ def run(ctx):
             elif names & {'std::option::Option::unwrap', 'std::option::Option::expect'}:
                 n_sites += 1
                 src = sources(ban, t.args[0])
-                ok = any(s[0] == 'field' and s[1] in (r.OBJECT + '.inner', r.UNREADY + '.inner') for s in src)
+                ok = any(s[0] == 'field' and s[1] in r.STATE_FIELDS for s in src)
                 ctx.ob('R02.4', 'Option::unwrap only on the typestate-guarded inner option', ok, ctx.where(b, t.line),
                        'unwrap() of %s can panic inside get()/drop/take' % ban.resolve_operand(t.args[0]) if not ok else '',
                        construct='panic:option-unwrap:' + b.name)
@@ -224,6 +227,18 @@ def run(ctx):
             elif any(n.startswith('std::rt::begin_panic') or n.startswith('core::panicking') or n.startswith('std::panicking')
                      or n in ('std::process::abort', 'std::process::exit') for n in names):
                 n_sites += 1
+                # `match state { Full(x) => x, Empty => unreachable!() }` on a typestate field is `state.unwrap()` spelled out
+                spelled = False
+                for d_ in ban.doms(('normal',)).get(blk.idx) or ():
+                    sw_ = b.blocks[d_]
+                    ma_ = maybe_arms(r.crate, sw_.term)
+                    if ma_ and 'on' in sw_.term.j and any(s_[0] == 'field' and s_[1] in r.STATE_FIELDS for s_ in sources(ban, Operand({'c': sw_.term.j['on']}), deep=True)):
+                        full_, empty_ = ma_
+                        if blk.idx in ban.reach([empty_], ('normal',), avoid=[full_]) and blk.idx not in ban.reach([full_], ('normal',), avoid=[empty_]):
+                            spelled = True
+                if spelled:
+                    ctx.ob('R02.4', 'Option::unwrap only on the typestate-guarded inner option', True, ctx.where(b, t.line), '', construct='panic:option-unwrap:' + b.name)
+                    continue
                 ctx.ob('R02.4', 'no explicit panic', False, ctx.where(b, t.line), 'call of %s' % '/'.join(sorted(names)),
                        construct='panic:explicit:' + b.name)
     ctx.count('panic_sites_examined', n_sites)
@@ -235,7 +250,7 @@ def run(ctx):
         ban = prog.an(b)
         for blk in calls_named(b, ['std::option::Option::take', 'std::mem::take', 'std::mem::replace']):
             src = sources(ban, blk.term.args[0]) if blk.term.args else set()
-            owners = [s[1] for s in src if s[0] == 'field' and s[1] in (r.OBJECT + '.inner', r.UNREADY + '.inner')]
+            owners = [s[1] for s in src if s[0] == 'field' and s[1] in r.STATE_FIELDS]
             if not owners:
                 continue
             n_take += 1
@@ -327,6 +342,37 @@ def run(ctx):
         'absence of deadlock beyond the single-lock / no-await-under-lock / no-relock argument',
     ]
     ctx.assumptions += ['tokio Semaphore wakes waiters when permits are added or the semaphore is closed', 'std Mutex poisoning semantics']
+
+
+def _bounds_assert_safe(an, body, blk, crate):
+    """an index check `idx < LEN` that cannot fail: LEN is a constant and idx is `e as usize` of a field-less enum of this crate
+    with at most LEN variants (default discriminants 0..n)"""
+    t = blk.term
+    if t.cond is None or t.cond.kind == 'const' or t.cond.place.proj:
+        return False
+    d = an.single_def(t.cond.place.local)
+    if not (d and d[0] == 'stmt' and d[3].rv.kind == 'bin' and d[3].rv.binop == 'Lt'):
+        return False
+    idx, ln = d[3].rv.ops
+    lv = an.resolve_operand(ln)
+    if not re.match(r'^\d+_usize$', lv):
+        return False
+    n_len = int(lv.split('_')[0])
+    op = idx
+    for _ in range(8):
+        if op.kind == 'const' or op.place.proj:
+            return False
+        dd = an.single_def(op.place.local)
+        if not (dd and dd[0] == 'stmt'):
+            return False
+        rv = dd[3].rv
+        if rv.kind in ('use', 'cast'):
+            op = rv.ops[0]; continue
+        if rv.kind == 'discr' and not rv.place.proj:
+            a_ = crate.adt(adt_of(body.locals[rv.place.local]['ty']) or '')
+            return a_ is not None and len(a_.get('variants', [])) <= n_len and all(not v_['fields'] for v_ in a_['variants']) and len(a_['variants']) > 0
+        return False
+    return False
 
 
 def _assert_on_field(an, body, blk, fields):
